@@ -74,6 +74,7 @@ pub fn sequential<S: Strategy<T> + CaS<T> + Default + Send + Sync + 'static>(see
             continue;
         }
         let kind = rng.below(READS.len() as u64) as usize;
+        crate::sched::op_begin_ext(100_000, 8, false);
         let got = match kind {
             0 => pid(plain_ref.load()),
             1 => pid(CacheAccess::<Payload>::load(&mut plain_arc)),
@@ -87,6 +88,7 @@ pub fn sequential<S: Strategy<T> + CaS<T> + Default + Send + Sync + 'static>(see
                 id
             }
         };
+        crate::sched::op_steps();
         checked += 1;
         crate::runner::count(&format!("cache.seq.read.{}", READS[kind]), 1);
         if got != model {
@@ -140,6 +142,8 @@ pub fn concurrent<S: Strategy<T> + CaS<T> + Default + Send + Sync + 'static>(see
             while !stop.load(Relaxed) || n < 50 {
                 let known = published.load(Acquire);
                 let which = rng.below(3) as usize;
+                // a cache read is a load: bounded number of own steps (a read that spins is reported by the step handler)
+                crate::sched::op_begin_ext(100_000, 8, false);
                 let got = match which {
                     0 => {
                         if rng.chance(1, 2) {
@@ -151,6 +155,7 @@ pub fn concurrent<S: Strategy<T> + CaS<T> + Default + Send + Sync + 'static>(see
                     1 => pid(CacheAccess::<Payload>::load(&mut plain2)),
                     _ => through_bound_u64(&mut mapped),
                 };
+                crate::sched::op_steps();
                 n += 1;
                 if got < known {
                     report("C16", "cache-older-than-completed-store", format!("concurrent part (seed {}): a cache read (flavour {}) returned {} although the completion of store({}) had been handed over before the call", seed, which, got, known));
